@@ -93,6 +93,21 @@ def plan_calls(abi, rng, n, addrs):
     fns = [a for a in abi if a["type"] == "function"]
     has_default = any(a["type"] == "fallback" for a in abi)
     plan = []
+    # short calldata (0-3 bytes), in particular every proper prefix of a method id that ends in zero bytes (such calldata,
+    # zero-padded by CALLDATALOAD, equals the method id): must reach __default__ / revert, never the function
+    seen = set()
+    shorts = [b""]
+    for fn in fns:
+        sel = selector(fn)
+        stripped = sel.rstrip(b"\x00")
+        if len(stripped) < 4:
+            shorts += [sel[:k] for k in range(len(stripped), 4)]
+    for fn in rng.sample(fns, min(3, len(fns))):
+        shorts += [selector(fn)[:k] for k in (1, 2, 3)]
+    for data in shorts:
+        if data not in seen:
+            seen.add(data)
+            plan.append({"name": "<short>", "data": data, "value": 0, "sender": DEPLOYER})
     for _ in range(n):
         x = rng.random()
         sender = DEPLOYER if rng.random() < 0.65 else SENDER2
